@@ -395,6 +395,8 @@ class File(resource.Resource, filepath.FilePath[str]):
                 # both is invalid.
                 raise ValueError(f"Invalid Byte-Range: {byteRange!r}")
             parsedRanges.append((start, end))
+        if not parsedRanges:
+            raise ValueError("Empty Byte-Range set")
         return parsedRanges
 
     def _rangeToOffsetAndSize(self, start, end):
